@@ -38,6 +38,19 @@ func Session(mask int, alt bool, variant int) *c01.Scn {
 	return &c01.Scn{Kind: "caps-session", Mask: mask, Alt: alt, Cols: 8, Rows: 3, Frames: []c01.Frame{f1, f2, f3}}
 }
 
+// TermSession: a session on a terminal that names itself (XTVERSION) and gives a DA1 service class; the
+// frames hold narrow ASCII cells only (what such a terminal makes of wide clusters is not the point).
+func TermSession(mask int, termID string, da1class int) *c01.Scn {
+	cell := func(g string, s c01.StyleD) *c01.CellD { return &c01.CellD{G: g, W: 1, S: s} }
+	f1 := c01.Frame{End: "render", Ops: []c01.Op{
+		{K: "set", C: 0, R: 0, Cell: cell("a", c01.StyleD{Fg: 2})},
+		{K: "set", C: 1, R: 0, Cell: cell("b", c01.StyleD{Us: 3, Ul: 4})},
+		{K: "set", C: 2, R: 1, Cell: cell("c", c01.StyleD{Link: "http://x"})},
+	}}
+	f2 := c01.Frame{End: "refresh"}
+	return &c01.Scn{Kind: "caps-term", Mask: mask, Cols: 6, Rows: 2, Frames: []c01.Frame{f1, f2}, TermID: termID, DA1Class: da1class}
+}
+
 // PaletteRow evaluates the fallback for (r, g, b) over the given blues.
 func PaletteRow(r, g int, bs []int) trace.Ev {
 	idx := make([]int, len(bs))
